@@ -15,6 +15,8 @@ import traceback
 from . import common
 
 VERIF = common.VERIF
+# own experiments (seeded-change runs against VERIF_REPO) can redirect evidence/replays; registered commands never set it
+OUT = os.environ.get("VERIF_OUT", VERIF)
 
 
 # ------------------------------------------------------------------------------------------------ workers
@@ -111,9 +113,9 @@ def match_known(prop, sig, label, findings):
 
 
 def write_replay(prop, res, v):
-    os.makedirs(os.path.join(VERIF, "replays"), exist_ok=True)
+    os.makedirs(os.path.join(OUT, "replays"), exist_ok=True)
     h = hashlib.sha1((res["sig"] + "|" + v.get("label", "")).encode()).hexdigest()[:12]
-    path = os.path.join(VERIF, "replays", "%s-%s.json" % (prop, h))
+    path = os.path.join(OUT, "replays", "%s-%s.json" % (prop, h))
     with open(path, "w") as f:
         json.dump({"property": prop, "module": res.get("module"), "spec": res.get("spec"), "sig": res["sig"],
                    "violation": v}, f, indent=1, default=str)
@@ -194,8 +196,8 @@ def finish(prop, tier, seed, results, t0, *, level="model_checking", bounds=None
         cov["states"] = 1
     if cov["transitions"] < 1:
         cov["transitions"] = 1
-    os.makedirs(os.path.join(VERIF, "evidence"), exist_ok=True)
-    with open(os.path.join(VERIF, "evidence", prop + ".json"), "w") as f:
+    os.makedirs(os.path.join(OUT, "evidence"), exist_ok=True)
+    with open(os.path.join(OUT, "evidence", prop + ".json"), "w") as f:
         json.dump(ev, f, indent=1, default=str)
     print("%s %s: %d configurations, %d paths, %d SMT queries (%.1fs solver), %d/%d obligations discharged, "
           "%d inconclusive, %d known-finding configs, %d unlisted violations, %.1fs wall" % (
